@@ -344,7 +344,17 @@ var stallFrameRe = regexp.MustCompile(`(?m)^(github\.com/buildbarn/bb-storage/[^
 // stallSite names the bb-storage functions in which goroutines are parked.
 func stallSite(dump string) string {
 	di := analyseDump(dump)
-	sites := di.sites
+	// Goroutines parked in the buffer layer (a consumer waiting for its
+	// background task) are downstream of whatever the task waits for.
+	var sites []string
+	for _, s := range di.sites {
+		if !strings.Contains(s, "/buffer.") {
+			sites = append(sites, s)
+		}
+	}
+	if len(sites) == 0 {
+		sites = di.sites
+	}
 	if len(sites) == 0 {
 		return "unknown"
 	}
@@ -454,9 +464,12 @@ func guarded(e *env, f func()) (stallDump, panicMsg, panicStack string) {
 
 // seqCall is guarded plus the reporting shared by the sequential engines; it
 // returns false if the history cannot be continued.
-func seqCall(c *run.Case, e *env, label string, f func()) bool {
+func seqCall(c *run.Case, e *env, cancel context.CancelFunc, label string, f func()) bool {
 	dump, pm, ps := guarded(e, f)
 	if dump != "" {
+		if cancel != nil {
+			defer cancel() // lets context-aware waits of the abandoned call exit
+		}
 		c.Violation("stall:"+stallSite(dump), "%s never returned: every goroutine is parked in consecutive dumps, no gate is held, no timer is armed\n%s", label, dump)
 		return false
 	}
